@@ -841,4 +841,88 @@ example : removeNegligible negEps [5, 37/4, -1 / 2 ^ 60, -179/100] = [5, 37/4, 0
     removedBy negEps [5, 37/4, -1 / 2 ^ 60, -179/100] = [0, 0, 1 / 2 ^ 60, 0] ∧ 0 ≤ negEps := by
   refine ⟨?_, ?_, ?_⟩ <;> decide +kernel
 
+/-! ## streams of another package on the weight basis -/
+
+lemma callOwn_rows_length (o : RObj) (tol : Rat) (rows rows' : List Vec)
+    (hrect : ∀ r ∈ rows, r.length = o.pkg.length) (hmwlen : o.mw.length = o.pkg.length)
+    (h : o.callOwn tol rows = .ok rows') : ∀ r ∈ rows', r.length = o.pkg.length := by
+  have hflat := length_flatten_rect o.pkg.length rows hrect
+  have hmwT : (tile rows.length o.mw).length = rows.length * o.pkg.length := by rw [length_tile, hmwlen]
+  cases hb : o.basis with
+  | mol =>
+    have e1 : o.callOwn tol rows = (o.core tol rows.flatten).map (chunk o.pkg.length rows.length) := by
+      unfold RObj.callOwn; rw [hb]
+    rw [e1] at h
+    cases hc : o.core tol rows.flatten with
+    | error e => rw [hc] at h; cases h
+    | ok out =>
+      rw [hc] at h; injection h with h; subst h
+      exact chunk_rows_length o.pkg.length rows.length out (by rw [length_core o tol _ out hc, hflat])
+  | wt =>
+    have e2 : o.callOwn tol rows
+        = (o.core tol (hmul rows.flatten (tile rows.length o.mw))).map
+            (fun out => chunk o.pkg.length rows.length (hdiv out (tile rows.length o.mw))) := by
+      unfold RObj.callOwn; rw [hb]
+    rw [e2] at h
+    cases hc : o.core tol (hmul rows.flatten (tile rows.length o.mw)) with
+    | error e => rw [hc] at h; cases h
+    | ok out =>
+      rw [hc] at h; injection h with h; subst h
+      have hout : out.length = rows.length * o.pkg.length := by
+        rw [length_core o tol _ out hc, length_hmul _ _ (by rw [hflat, hmwT]), hflat]
+      exact chunk_rows_length o.pkg.length rows.length _
+        (by rw [length_hdiv _ _ (by rw [hout, hmwT]), hout])
+
+lemma remapRows_nonneg (src dst : List Nat) (rows out : List Vec) (h : remapRows src dst rows = .ok out)
+    (hn : ∀ r ∈ rows, ∀ x ∈ r, 0 ≤ x) : ∀ r ∈ out, ∀ x ∈ r, 0 ≤ x := by
+  have hf := remapRows_ok src dst rows out h
+  clear h
+  induction hf with
+  | nil => intro r hr; simp at hr
+  | @cons r o rs os h1 _ ih =>
+    intro r' hr'
+    simp only [List.mem_cons] at hr'
+    rcases hr' with rfl | hr'
+    · exact remapRow_nonneg src dst r _ h1 (hn r (by simp))
+    · exact ih (fun r'' hr'' => hn r'' (by simp [hr''])) r' hr'
+
+/-- Streams of another package, weight basis, end to end (there, through the mass flows, react,
+back): every per-chemical weighting `w` that the weight-basis stoichiometries balance per unit
+mass (`w_j / MW_j`; for the weight-basis version of a balanced reaction this is `balanced_toWt`)
+keeps its total over the stream's phases up to the clamped amount, and no flow is negative. -/
+theorem other_package_conserves_wt (o : RObj) (tol amax : Rat) (h0 : 0 ≤ amax) (w : Nat → Rat)
+    (ph pkg : List Nat) (rows rows' : List Vec)
+    (hb : o.basis = .wt) (hne : (pkg == o.pkg) = false) (hp : pkg.Nodup) (hop : o.pkg.Nodup)
+    (hmwlen : o.mw.length = o.pkg.length) (hpos : ∀ x ∈ o.mw, 0 < x)
+    (hw : ∀ x ∈ hdiv (o.pkg.map w) o.mw, |x| ≤ amax)
+    (hrect : ∀ r ∈ rows, r.length = pkg.length)
+    (hbal : Balanced (tile rows.length (hdiv (o.pkg.map w) o.mw)) o.kind.rxns)
+    (h : o.callStream tol ph pkg rows = .ok rows') :
+    |total (pkg.map w) rows' - total (pkg.map w) rows| ≤ amax * tol ∧
+      (∀ r ∈ rows', ∀ x ∈ r, 0 ≤ x) := by
+  obtain ⟨rows1, rows2, h1, h2, h3⟩ := callStream_other o tol ph pkg rows rows' hne h
+  obtain ⟨t1, l1, r1⟩ := total_remapRows w pkg o.pkg hp hop rows rows1 hrect h1
+  obtain ⟨hc1, hc2⟩ := call_conserves_wt o tol amax h0 (o.pkg.map w) rows1 rows2 hb (by simp) hmwlen hpos hw
+    r1 (by rw [l1]; exact hbal) h2
+  have hrect2 := callOwn_rows_length o tol rows1 rows2 r1 hmwlen h2
+  obtain ⟨t2, _, _⟩ := total_remapRows w o.pkg pkg hop hp rows2 rows' hrect2 h3
+  refine ⟨by rw [t2, ← t1]; exact hc1, remapRows_nonneg o.pkg pkg rows2 rows' h3 hc2⟩
+
+/-- … and on the molar basis no flow is negative either (the bound is `other_package_conserves`) -/
+theorem other_package_nonneg (o : RObj) (tol : Rat) (ph pkg : List Nat) (rows rows' : List Vec)
+    (hb : o.basis = .mol) (hne : (pkg == o.pkg) = false)
+    (h : o.callStream tol ph pkg rows = .ok rows') : ∀ r ∈ rows', ∀ x ∈ r, 0 ≤ x := by
+  obtain ⟨rows1, rows2, _, h2, h3⟩ := callStream_other o tol ph pkg rows rows' hne h
+  refine remapRows_nonneg o.pkg pkg rows2 rows' h3 ?_
+  have e1 : o.callOwn tol rows1 = (o.core tol rows1.flatten).map (chunk o.pkg.length rows1.length) := by
+    unfold RObj.callOwn; rw [hb]
+  rw [e1] at h2
+  cases hc : o.core tol rows1.flatten with
+  | error e => rw [hc] at h2; cases h2
+  | ok out =>
+    rw [hc] at h2; injection h2 with h2; subst h2
+    obtain ⟨_, hf⟩ := core_ok o tol _ out hc
+    intro r hr x hx
+    exact normal_return_nonneg tol _ out hf x (mem_chunk _ _ out r hr x hx)
+
 end ThermoVerif.Props.C05
